@@ -454,10 +454,7 @@ func c20Step(x *engine.Exec) []engine.Failure {
 			// decode of the queue (first run applied the full slash to the reference and reported the queries: a false
 			// alarm of the model, the queries showed exactly what is stored)
 			x.Cnt.Inc("state.after_aborted_slash_callback")
-			ref.Unb = nil
-			for _, u := range x.Next.Snap().Unb {
-				ref.Unb = append(ref.Unb, refUnb{D: u.D, V: u.V, Denom: u.Denom, Amt: new(big.Int).Set(u.Amt.BigInt()), C: u.Completion.UnixNano()})
-			}
+			ref.resyncUnb(x.Next.Snap())
 		} else {
 			ref.onSlash(x.Op.V, world.Rat(x.Res.EffFrac), prev.Time)
 		}
